@@ -3,6 +3,7 @@
 mod graph;
 mod isolation;
 mod keys;
+mod link;
 mod machines;
 mod replay;
 mod tables;
@@ -158,6 +159,13 @@ fn main() {
                 usage();
             }
             world::replay(&args[2], &args[3]);
+        }
+        "replay-link" => {
+            // pkv replay-link <behaviours.ndjson>
+            if args.len() < 3 {
+                usage();
+            }
+            link::replay(&args[2]);
         }
         "cells" => {
             // re-evaluate layout cells: JSON array of [object, key, modifiers, mode]
